@@ -120,9 +120,9 @@ def hbound (env : Env) (s : State E) : Nat := if !s.pending then 0 else core env
 theorem handleTurn_cases (env : Env) (s : State E) :
     (changedOf env s = true ∧ handleTurn env s = nextState env s (s.now + env.lat) true (s.writes + 1)) ∨
     (∃ d, changedOf env s = false ∧ minDelay (pass env s).delays = some d ∧
-      handleTurn env s = nextState env s (s.now + (if d > env.cap then env.cap else d) + env.lat) true (s.writes + 1)) ∨
+      handleTurn env s = nextState env s (s.now + (if d > env.cap then env.cap else d) + env.lat) true (s.writes + cp env + 1)) ∨
     (changedOf env s = false ∧ minDelay (pass env s).delays = none ∧
-      handleTurn env s = nextState env s s.now false s.writes) := by
+      handleTurn env s = nextState env s s.now false (s.writes + cp env)) := by
   by_cases hch : changedOf env s = true
   · left
     exact ⟨hch, by unfold handleTurn; rw [if_pos hch]⟩
@@ -371,7 +371,7 @@ theorem handle_decreases (env : Env) (wf : WF env) (hfin : AllFinal env) (s : St
     rcases handleTurn_cases env s with ⟨_, h⟩ | ⟨d, _, hm, h⟩ | ⟨_, _, h⟩
     · rw [h]
       have hle : s.now ≤ s.now + env.lat := int_le_add s.now env.lat wf.lat
-      obtain ⟨k1, k2⟩ := key _ (s.writes + 1) hle
+      obtain ⟨k1, k2⟩ := key _ _ hle
       have := hAle (s.now + env.lat)
       rw [k1, hb]; omega
     · rw [h]
@@ -381,7 +381,7 @@ theorem handle_decreases (env : Env) (wf : WF env) (hfin : AllFinal env) (s : St
         rw [cycle_main _ _ _ _ _ hr hne] at hmem
         exact delays_nonneg _ _ _ d hmem
       have hle := int_sleep_le s.now d env.cap env.lat hd wf.cap wf.lat
-      obtain ⟨k1, k2⟩ := key _ (s.writes + 1) hle
+      obtain ⟨k1, k2⟩ := key _ _ hle
       have := hAle (s.now + (if d > env.cap then env.cap else d) + env.lat)
       rw [k1, hb]; omega
     · rw [h, hb, hbound_not_pending _ _ rfl]; omega
@@ -396,7 +396,7 @@ theorem handle_decreases (env : Env) (wf : WF env) (hfin : AllFinal env) (s : St
     rcases handleTurn_cases env s with ⟨_, h⟩ | ⟨d, _, hm, h⟩ | ⟨_, _, h⟩
     · rw [h]
       have hle : s.now ≤ s.now + env.lat := int_le_add s.now env.lat wf.lat
-      obtain ⟨k1, k2⟩ := key _ (s.writes + 1) hle
+      obtain ⟨k1, k2⟩ := key _ _ hle
       have := hAle (s.now + env.lat)
       rw [k1, hb, hA]; simp only [hex, if_true]; omega
     · rw [h]
@@ -406,7 +406,7 @@ theorem handle_decreases (env : Env) (wf : WF env) (hfin : AllFinal env) (s : St
         rw [cycle_main _ _ _ _ _ hr hne] at hmem
         exact delays_nonneg _ _ _ d hmem
       have hle := int_sleep_le s.now d env.cap env.lat hd wf.cap wf.lat
-      obtain ⟨k1, k2⟩ := key _ (s.writes + 1) hle
+      obtain ⟨k1, k2⟩ := key _ _ hle
       have := hAle (s.now + (if d > env.cap then env.cap else d) + env.lat)
       rw [k1, hb, hA]; simp only [hex, if_true]; omega
     · rw [h, hb, hbound_not_pending _ _ rfl]; omega
@@ -429,7 +429,7 @@ theorem handle_decreases (env : Env) (wf : WF env) (hfin : AllFinal env) (s : St
       rw [if_pos hcap] at h
       rw [h]
       have hle : s.now ≤ s.now + env.cap + env.lat := int_le_add2 s.now env.cap env.lat wf.cap wf.lat
-      obtain ⟨k1, k2⟩ := key _ (s.writes + 1) hle
+      obtain ⟨k1, k2⟩ := key _ _ hle
       have hstrict : Cv env.cap (env.sel (causeOf s)) (pass env s).P' (s.now + env.cap + env.lat)
           < Cv env.cap (env.sel (causeOf s)) s.P s.now := by
         unfold Cv
@@ -448,7 +448,7 @@ theorem handle_decreases (env : Env) (wf : WF env) (hfin : AllFinal env) (s : St
       rw [if_neg hcap] at h
       rw [h]
       have hle : s.now ≤ s.now + d + env.lat := int_le_add3 s.now d env.lat hd wf.lat
-      obtain ⟨k1, k2⟩ := key _ (s.writes + 1) hle
+      obtain ⟨k1, k2⟩ := key _ _ hle
       have hAw : Av (env.sel (causeOf s)) (pass env s).P' (s.now + d + env.lat) = 0 := by
         unfold Av
         have : (env.sel (causeOf s)).any (awakeP (pass env s).P' (s.now + d + env.lat)) = true := by
